@@ -506,6 +506,13 @@ def main(argv=None):
         cases.append((dict(k="scalelinear", segs=[dict(off=0, num=1, den=1, lo=(0, 1), hi=(10, 1), inv=None),
                                                   dict(off=-10, num=2, den=1, lo=(10, 1), hi=(20, 1), inv=None)]),
                       [0, 5, 10, 11, 30]))
+        # integers of more than 53 bits (64-bit parameters): the conversion is exact, not a double precision one
+        big = [2 ** 53 + 1, 2 ** 63 - 1, 2 ** 64 - 1, -(2 ** 63) + 1, 3 * 2 ** 60 + 7, 0, 5]
+        for off, num, den in ((0, 1, 1), (1, 3, 2), (-7, -5, 3), (10, 2, -1)):
+            cases.append((dict(k="linear", s=dict(off=off, num=num, den=den, lo=None, hi=None, inv=None)), big))
+        cases.append((dict(k="scalelinear", segs=[dict(off=0, num=1, den=1, lo=(0, 1), hi=(2 ** 62, 1), inv=None),
+                                                  dict(off=-2 ** 62, num=2, den=1, lo=(2 ** 62, 1), hi=(2 ** 64, 1), inv=None)]),
+                      big + [2 ** 62, 2 ** 62 + 1, 2 ** 63 + 1]))
         # text tables whose scales exclude a limit (INTERVAL-TYPE OPEN): the text is encoded by a value inside the scale
         tt = lambda lo, hi, t: dict(lo=lo, hi=hi, const=t, inv=None)
         for sc in ([tt((0, 1), (5, 1), "low"), tt((5, 0), (10, 1), "high")],
